@@ -171,6 +171,17 @@ CHECKS = {
     note="Assumed (call-site contracts, A10/A15): infer_from_expect / schema_answers / post_schema_ans_val are deterministic, may raise, and do not write grader state; AbstractGrader.__call__ never touches "
          "config['answers'] and clears log_created once the input has passed ensure_text_inputs (its own contract is drafted, not discharged). coerce2unicode's recursive copy is bounded-only.",
     design="6/C11"),
+ 'C15': dict(
+    technique="contract-based deductive verification (pyvc) of the derived function definitions against their textbook definitions over uninterpreted elementary functions; ast-scan obligations for the name tables; bounded sweep against a cmath oracle as stand-in for numpy itself",
+    text="Proved for all real arguments: sec, csc, cot, sech, csch, coth are the reciprocals of cos, sin, tan, cosh, sinh, tanh (a zero denominator yields an error, never a value); "
+         "arcsec, arccsc, arcsech, arccsch, arccoth are arccos, arcsin, arccosh, arcsinh, arctanh of 1/x (x = 0: error); arccot is the odd branch pi/2 - arctan x (x >= 0), -pi/2 - arctan x (x < 0); "
+         "arctan2(x, y) is numpy's arctan2(y, x) -- the documented (x, y) order -- and raises FunctionEvalError exactly at (0, 0); kronecker is the 0/1 indicator of x == y; cross is the "
+         "component formula of the vector product (polynomial identity by z3). Decided by source scan (ast-scan back end): every name of the default tables is bound to the function of that name "
+         "(scimath variants where complex continuation is documented), the constants i, j, e, pi, and numpy errors are routed to exceptions. "
+         "Bounded (not proved): every table entry against a cmath/explicit-formula oracle on real and complex grids, branch cuts, poles, wrong arities and shapes (58k quick / 870k thorough evaluations).",
+    note="Assumed: A8 numpy's elementary functions are the mathematical ones (COS, SIN, ... are uninterpreted; their values are checked only by the bounded tier); A1 floats as reals; complex arguments, arrays and the "
+         "@SpecifyDomain decorators (argument count / shape validation), eval_function and get_number_of_args are outside the value model: bounded tier only. The extraction drops decorators. factorial excluded (scipy absent).",
+    design="6/C15"),
 }
 
 NOT_YET = {}
